@@ -140,3 +140,28 @@ def intervals_to_boundaries(intervals: Arr(Real, None, 2), q: Int = 5) -> Arr(Re
     ensures(implies(n > 0, length(result) > 0), length(result) <= 2 * n, label='size')
     ensures(forall(0, length(result), lambda k: exists(0, n, lambda i: result[k] == ROUND(intervals[i, 0], q) or result[k] == ROUND(intervals[i, 1], q))),
             label='only-rounded-end-points')
+
+
+# ----------------------------------------------------------------------------- interpolate_intervals
+def inside(I, j, t):
+    return I[j, 0] <= t and t <= I[j, 1]
+
+
+@contract("mir_eval.util.interpolate_intervals", props="C13 C14")
+def interpolate_intervals(intervals: Arr(Real, None, 2), labels: Lst(ObjT), time_points: Arr(Real, None), fill_value: ObjT = None) -> Lst(ObjT):
+    """every time point gets the label of the last listed interval that contains it (closed intervals), the fill value if none does"""
+    n = length(intervals)
+    m = length(time_points)
+    requires(length(labels) == n)
+    raises(ValueError, when=exists(0, m - 1, lambda p: time_points[p + 1] < time_points[p]), props="C14 C13")
+    invariant(lambda: length(aligned_labels) == length(time_points), loop=0, label='one-label-per-point')
+    invariant(lambda: forall2_rect(length(time_points), loop_index(0), lambda p, j: implies(
+        inside(intervals, j, time_points[p]) and forall(j + 1, loop_index(0), lambda j2: not inside(intervals, j2, time_points[p])),
+        aligned_labels[p] == labels[j])), loop=0, label='last-containing-interval-wins')
+    invariant(lambda: forall(0, length(time_points), lambda p: implies(forall(0, loop_index(0), lambda j: not inside(intervals, j, time_points[p])),
+                                                                      aligned_labels[p] == fill_value)), loop=0, label='fill-outside')
+    ensures(length(result) == m, label='size')
+    ensures(forall2_rect(m, n, lambda p, j: implies(inside(intervals, j, time_points[p]) and forall(j + 1, n, lambda j2: not inside(intervals, j2, time_points[p])),
+                                                   result[p] == labels[j])), label='label-of-the-last-containing-interval', props="C13")
+    ensures(forall(0, m, lambda p: implies(forall(0, n, lambda j: not inside(intervals, j, time_points[p])), result[p] == fill_value)),
+            label='fill-value-outside-every-interval', props="C13")
